@@ -855,17 +855,36 @@ def oracle_history(case):
     for k, sub in enumerate(history_steps(case)):
         f, obs = oracle(sub)
         for x in f:
-            x["history"] = f"step {k + 1} of {len(case['steps'])} ({case['steps'][k].get('label', '')}), oriented after the earlier steps in one interpreter"
+            x["history_step"] = f"step {k + 1} of {len(case['steps'])} ({case['steps'][k].get('label', '')}), oriented after the earlier steps in one interpreter"
         fails.extend(f)
     return fails, obs
 
 
+_EXECUTED = []      # every case judged by this interpreter, in order: the call history of a failing case (see geo_history.py)
+
+
 def judge(case):
+    _EXECUTED.append({k: v for k, v in case.items() if k not in ("stream", "history")})
     if case.get("steps"):
         fails, obs = oracle_history(case)
         return fails, {}, obs
     fails, obs = oracle(case)
     return fails, terms(case, obs), obs
+
+
+def is_known(f):
+    return any(m(f) for m in KNOWN.values())
+
+
+def run_history(steps):
+    """histseq interface: the cases one after the other in this interpreter; the oracle's complaints (other than known findings)
+    about the LAST one"""
+    import warnings
+    warnings.filterwarnings("ignore")
+    fails = []
+    for c in steps:
+        fails, _, _ = judge(dict(c))
+    return [f["what"] for f in fails if not is_known({"case": steps[-1], **f})]
 
 
 def correspond(ctx):
@@ -890,7 +909,7 @@ def correspond(ctx):
             corr.nontriv({k: v for k, v in case.items() if k != "stream"})
             for f in fails:
                 corr.failures.append({"stream": "oracle-history", "case": {k: v for k, v in case.items() if k != "stream"},
-                                      "what": f["what"], "observed": f["observed"], "history": f.get("history")})
+                                      "what": f["what"], "observed": f["observed"], "history_step": f.get("history_step"), "_pos": len(_EXECUTED) - 1})
             continue
         corr.count(case["stream"])
         corr.hit("shape_" + case["shape"])
@@ -934,7 +953,7 @@ def correspond(ctx):
             corr.sample({"case": case, "oriented": np.round(obs["raw"], 6).tolist()})
         for f in fails:
             corr.failures.append({"stream": "oracle-" + case["shape"], "case": {k: v for k, v in case.items() if k != "stream"},
-                                  "what": f["what"], "observed": f["observed"]})
+                                  "what": f["what"], "observed": f["observed"], "_pos": len(_EXECUTED) - 1})
         # thorough tier: every molecule goes through the oracle; the (much slower) exact model is run on the corpus and on
         # every second random molecule
         if ctx.thorough and case["stream"] != "corpus" and (corr.streams.get(case["stream"], 0) % 2 == 0):
@@ -968,6 +987,9 @@ def correspond(ctx):
         corr.count("zero_total_mass")
         atoms = clist([f"({cvec(p)}, {cfl(m)})" for p, m in zip(np.array(geom, dtype=float).reshape(-1, 3), masses)])
         buckets["chk_orient_gen"].append((f"({atoms}, (((0, 0, 0), (mident QK))), {exp})", zc))
+    # every stream's first failure must replay from its recorded input alone (with the earlier calls it depends on, if any)
+    from . import geo_history
+    corr.failures = geo_history.attach("c16", corr.failures, _EXECUTED, is_known, log=ctx.log)
     corr.sample({"case": cases[1]})
     ctx.log(f"{len(cases)} molecules through the implementation; evaluating the model: " + ", ".join(f"{k}={len(v)}" for k, v in buckets.items()))
     from concurrent.futures import ThreadPoolExecutor
@@ -999,7 +1021,7 @@ def search(ctx, corr, reasons):
         except Exception:
             continue
         for f in fails:
-            found.append({"stream": "search", "case": d["case"], "what": f["what"], "observed": f["observed"]})
+            found.append({"stream": "search", "case": d["case"], "what": f["what"], "observed": f["observed"], "_pos": len(_EXECUTED) - 1})
     if not found:
         class C2:
             pass
@@ -1012,14 +1034,19 @@ def search(ctx, corr, reasons):
                 continue
             for f in fails:
                 found.append({"stream": "search-" + case["shape"], "case": {k: v for k, v in case.items() if k != "stream"},
-                              "what": f["what"], "observed": f["observed"]})
-    return found
+                              "what": f["what"], "observed": f["observed"], "_pos": len(_EXECUTED) - 1})
+    from . import geo_history
+    return geo_history.attach("c16", found, _EXECUTED, is_known, log=getattr(ctx, "log", None))
 
 
 def replay(ctx, rp):
     case = dict(rp["case"])
+    if case.get("history"):
+        from . import geo_history
+        return geo_history.replay_history("c16", case)
     fails, _, _ = judge(case)
-    return {"case": case, "failures": fails, "fails": bool(fails)}
+    new = [f for f in fails if not is_known({"case": case, **f})]
+    return {"case": case, "failures": new, "known_findings_also_seen": [f["what"] for f in fails if f not in new], "fails": bool(new)}
 
 
 def known_flush_zone(fc):
